@@ -246,3 +246,21 @@ Fixpoint pobs_run_h (st : list pdec) (s : pstate) (calls : list pcall) : list po
            (hreads (ho_heap o) (pc_batch c))
       :: pobs_run_h st (pstep_h st s c) cs
   end.
+
+(** ** the trail when a batch repeats an object: every transform layer runs once per POSITION, so an
+    object that occurs k times in the batch has been through every transform k times (k = 1 is the
+    ordinary case).  Judged on the call of the wrapped publisher, for every call that reaches it. *)
+Definition occ (x : N) (l : list N) : nat := length (filter (N.eqb x) l).
+Definition trail_ok_dup (st : list pdec) (c : pobs) : bool :=
+  match inner_calls (c_ev c) with
+  | [(_, b)] =>
+      list_eqb (list_eqb N.eqb) (map pm_trail b)
+        (map (fun m => pm_trail m
+                       ++ concat (map (fun t => repeat t (occ (pm_id m) (map pm_id (c_before c)))) (transform_tags st)))
+             (c_before c))
+  | _ => true
+  end.
+
+(** the complete acceptor the check runs on publisher cases *)
+Definition pub_monitor_full (st : list pdec) (cs : list pobs) (tab : list (plabel * nat)) : bool :=
+  pub_monitor_any st cs tab && forallb (trail_ok_dup st) cs.
